@@ -407,3 +407,17 @@ PROPS["C10"]["streams"] = PROPS["C10"]["streams"] + [CW_CPLEX_BATCH]
 # worlds with a coarse grid invoked at instants that are not multiples of the grid step
 PROPS["C14"]["streams"] = [PLAN_TETRI_G, PLAN_TETRI_C, PLAN_ILP_GOODPUT, PLAN_TETRI_G]
 PROPS["C14"]["runs"] = {"quick": 1000, "thorough": 30000}
+
+
+# ------------------------------------------------------------------ F4: the workload arrives in windows
+# (harness loader `_Cumulative`, modelled on the bundled AlibabaLoader: every UPDATE_WORKLOAD adds the task graphs
+# released within the next window to one growing Workload object; repaired defect c1d9023)
+G_DYN = {"profile": "greedy", "opts": {"p_batch_loader": 1.0}}
+CH_DYN = {"profile": "chaos", "opts": {"p_batch_loader": 1.0}}
+G_DYN_ENF = {"profile": "greedy", "opts": {"p_batch_loader": 1.0, "p_enforce": 0.8, "p_drop": 0.5, "p_conditionals": 0.6}}
+G_DYN_CL = {"profile": "greedy", "opts": {"p_batch_loader": 1.0, "release_kinds": ["closed_loop", "closed_loop", "fixed"],
+                                          "p_enforce": 0.6, "p_drop": 0.4}}
+for _p, _ss in (("C01", [CH_DYN]), ("C02", [G_DYN, CH_DYN]), ("C03", [CH_DYN]), ("C05", [G_DYN, G_DYN_ENF]),
+                ("C06", [CH_DYN, G_DYN_ENF]), ("C08", [G_DYN, CH_DYN, G_DYN_ENF]), ("C18", [G_DYN, CH_DYN]),
+                ("C19", [G_DYN_CL])):
+    PROPS[_p]["streams"] = PROPS[_p]["streams"] + _ss
